@@ -93,7 +93,8 @@ def meta_for(sc, cfg):
         xs.append({
             'kind': kind, 'size': t.get('size', 0),
             'dstk': (t.get('dst', 'path') if kind == 'download' else 'none'),
-            'srck': (t.get('src', 'path') if kind == 'upload' else 'none'),
+            'srck': ((t.get('src', 'path').replace('seekable-noattr', 'seekable'))
+                     if kind == 'upload' else 'none'),
             'hasOld': bool(t.get('old')), 'nsubs': len(subs),
             'provide': any('provide_size' in s for s in subs),
             'faultFree': not faulty, 'override': override,
@@ -133,6 +134,11 @@ def normalize(res, sc, tid):
                 last_notdone.setdefault(th, {})[e.get('x', -1)] = t
         elif k in ('TaskBegin',):
             last_notdone.pop(th, None)
+            if e.get('stage') == 'io':
+                ev.append({'e': 'IoTask', 'ph': 'b'})
+        elif k == 'TaskEnd':
+            if e.get('stage') == 'io':
+                ev.append({'e': 'IoTask', 'ph': 'e'})
         elif k == 'Call':
             ev.append({'e': 'Call', 'x': X(e)})
         elif k == 'Ret':
